@@ -13,7 +13,10 @@ def worker(job, extra):
         spec = pinned.get(prop, job['seed'])
     else:
         spec = profiles.make_spec(job['profile'], job['seed'], tier)
+    if prop in profiles.REUSE_OK and job.get('spec') is None and job['profile'] != 'pinned' and job['seed'] % 8 == 3 and not spec.get('exact'):
+        spec['reuse_network'] = True
     f = gen.features(spec)
+    if spec.get('reuse_network'): f = f | {'reused_network'}
     if job.get('fault'):
         return fault_run(job, spec, cap, wall)
     if job.get('explore'):
